@@ -67,6 +67,8 @@ def _tables():
             data.append({"name": k.name, "gets": [list(g) for g in k.gets], "single": [list(g) for g in k.single],
                          "sets": [[[list(n) for n in names], act] for names, act in k.sets]})
         try:
+            if repo != "/repo":
+                raise OSError("cache only the reference tree")
             tmp = _CACHE + ".tmp%d" % os.getpid()
             with open(tmp, "w") as f:
                 json.dump(data, f)
@@ -77,17 +79,37 @@ def _tables():
         if not os.path.exists(_CACHE):
             raise
         data = json.load(open(_CACHE))
+        if repo != "/repo":
+            # prefer the tables of the reference tree to a cache that may stem from another changed tree
+            try:
+                lay = lx.Layout("/repo")
+                lay.repo = "/repo"
+                data = []
+                for kn in lx.KINDS:
+                    k = lx.extract_kind("/repo", lay, kn)
+                    data.append({"name": k.name, "gets": [list(g) for g in k.gets], "single": [list(g) for g in k.single],
+                                 "sets": [[[list(n) for n in names], act] for names, act in k.sets]})
+            except Exception:
+                pass
     _TABLES[repo] = [_K(d) for d in data]
     return _TABLES[repo]
 
 
 def generate(chk):
     import layout_extract as lx
+    path = os.path.join(build.LEAN, "MptModel", "Generated", "LayoutTables.lean")
     try:
-        lx.write(build.REPO, os.path.join(build.LEAN, "MptModel", "Generated", "LayoutTables.lean"))
-    except lx.TranslateError as e:
-        raise build.BuildError("layout_extract: the layout sources left the translatable form (tie broken): %s" % e)
-    except (OSError, IndexError, ValueError, KeyError) as e:
+        lx.write(build.REPO, path)
+    except Exception as e:
+        # the model must not be left on the translation of some OTHER tree (an earlier run with VERIF_REPO):
+        # the reference tree is the last good translation
+        if build.REPO != "/repo":
+            try:
+                lx.write("/repo", path)
+            except Exception:
+                pass
+        if isinstance(e, lx.TranslateError):
+            raise build.BuildError("layout_extract: the layout sources left the translatable form (tie broken): %s" % e)
         raise build.BuildError("layout_extract failed: %r" % (e,))
 
 
@@ -122,7 +144,7 @@ FLOATS = ["0", "1", "-1", "0.5", "-0.25", "2.5", "100", "0.125", "1e2", "1E-0", 
           "16777215", "16777216", "-16777215", "0.0000152587890625", "3.0517578125e-05", "5e-1x", "4096.0625", "0.75e2"]
 POINTS = ["0.5", "0.25 0.75", "0.25,0.75", "0.25;0.75", "0.25/0.75", "0.25:0.75", "0.25x0.75", "1 1", "0 0", "0", "1", "2", "-1",
           "0.5 2", "2 0.5", "0.5 -1", "0.5 ", "0.5 abc", "abc", "0.5  0.75", " 0.5 0.25", "0.5 0.25 0.125", "", "3 4", "1e1 2",
-          "16777215 1", "0.5,", ",0.5", "1e39", "0.5 1e39", " ", "  \t", "0.5   ", "0.5  \t", "0.5 \t0.25"]
+          "16777215 1", "0.5,", ",0.5", "1e39", "0.5 1e39", " ", "  \t", "0.5   ", "0.5  \t", "0.5 \t0.25", "nan", "NaN", "inf", "-inf", "infinity", "0.5 nan", "nan 0.5", "inf 0.5", "nan abc", "0.5 -Infinity"]
 CHARS = ["t", "b", "5", "tu", " t", "  ", "", "~", "!", "\x7f", "\x01", "\x80x", "\xff", "\t\tq", "0", "-1", "top", "T"]
 STRINGS = ["a", "abc", "hello world", " lead", "trail ", "  ", "", "x" * 15, "x" * 16, "x" * 17, "y" * 255, "z" * 256, "w" * 300,
            "q" * 4096, "#1", "0", "\x01\x7f\x80\xff", "a b;c,d:e/f", "log", "red"]
